@@ -18,7 +18,7 @@ from pyvc.effects import EMPTY, FS, KNOWN_FINDINGS, Analysis  # noqa: E402
 PY = sys.executable
 NEW_NONE = FS({("new", "None")})
 
-# key -> expected verdict in the what-if run (known findings assumed removed)
+# key -> expected verdict of the default run on the current (fixed) tree
 PROBES = {
     "element:Element.get_elements": (EMPTY, "pure"),
     "element:Element.get_attribute": (EMPTY, "pure"),
@@ -40,20 +40,22 @@ PROBES = {
     "element:Element.set_attribute": (EMPTY, "may-mutate"),
     "element:Element.delete": (EMPTY, "may-mutate"),
     "element:Element.get_variable_decls": (EMPTY, "may-mutate"),
-    "xmlpart:XmlPart.serialize": (EMPTY, "may-mutate"),
+    # fixed upstream: pretty printing works on a deepcopy, Markdown export on a clone,
+    # MetaAutoReload/MetaTemplate only write under `if self._do_init:`
+    "xmlpart:XmlPart.serialize": (EMPTY, "pure"),
+    "document:Document.to_markdown": (EMPTY, "pure"),
+    "mixin_md:MDTable._md_format": (EMPTY, "pure"),
+    "document:Document.clone": (EMPTY, "pure"),
+    "table:Table.get_columns": (EMPTY, "pure"),
+    "table:Table.get_cell": (EMPTY, "may-mutate"),
 }
-# expected in the PRIMARY run (nothing assumed)
-PRIMARY = {
-    "document:Document.to_markdown": "may-mutate",
-    "mixin_md:MDTable._md_format": "may-mutate",
-    "element:Element.get_attribute": "pure",
-    "element:Element.serialize": "pure",
-    "meta_auto_reload:MetaAutoReload.__init__": "may-mutate",
+PRIMARY = {  # constructor wrapping an existing node must not write any more
+    "meta_auto_reload:MetaAutoReload.__init__": "pure",
 }
 
 
 def probe(strict=False, primary=False):
-    an = Analysis(strict_tostring=strict, assume_pure=None if primary else KNOWN_FINDINGS)
+    an = Analysis(strict_tostring=strict)
     names = PRIMARY if primary else PROBES
     for name in names:
         spec = EMPTY if primary else PROBES[name][0]
@@ -91,14 +93,14 @@ def main():
         return 0
     ok = True
     base = probe()
-    print("== baseline, what-if run (known findings assumed removed)")
+    print("== baseline (default run, nothing assumed)")
     for name, (spec, want) in PROBES.items():
         got = base[name][0]
         good = got == want
         ok &= good
         print(f"  {'ok ' if good else 'BAD'} {name:<42} want {want:<10} got {got:<10} {' -> '.join(base[name][1][-3:])}")
     prim = probe(primary=True)
-    print("== baseline, primary run (nothing assumed)")
+    print("== baseline, constructors under @wrap")
     for name, want in PRIMARY.items():
         got = prim[name][0]
         good = got == want
